@@ -139,4 +139,41 @@ theorem cycle_free_bounds_meaning (r : Rxn) (fl v : Rat) (hfl : Core.inBox (r.lb
 example : AuxM.cycleFreeBounds ⟨"R", "R_rev", .fin (-5), .fin 8, [("A", -1), ("B", 1)]⟩ 3 = (.fin 0, .fin 3) := by decide +kernel
 example : AuxM.cycleFreeBounds ⟨"R", "R_rev", .fin (-5), .fin 8, [("A", -1), ("B", 1)]⟩ (-2) = (.fin (-2), .fin 0) := by decide +kernel
 
+/-! ### the whole problem `add_loopless` builds
+
+`AuxM.Net.loopless n ns cutoff`: the flux-balance problem, for every internal reaction a binary `indicator_<id>`, the row `on_off_<id>`
+(`−M ≤ v − M a ≤ 0`), a free `delta_g_<id>` and the row `delta_g_range_<id>` (`1 ≤ G_i + (G + 1) a ≤ G`), and one row `nullspace_constraint_k`
+per null-space vector (numpy's basis, taken as data; entries at or below the cut-off dropped).  Compared entry by entry with the raw GLPK
+problem (`harness/auxcorr.py`). -/
+open AuxM in
+/-- **`add_loopless`, whole problem**: at every feasible point, no non-zero combination `z` of the null-space rows (an internal cycle) is
+sign-compatible with the internal fluxes — the flux vector carries no internal cycle the basis can express -/
+theorem loopless_problem_has_no_cycle (n : Net) (ns : List (List Rat)) (cutoff : Rat) (x : V → Rat) (h : (n.loopless ns cutoff).Feasible x)
+    (hlen : ∀ r ∈ ns, r.length = n.internal.length) (lam : List Rat)
+    (hcompat : ∀ j, (LPM.yA n.internal.length lam (nullRows cutoff ns)).getD j 0 ≠ 0 →
+      0 < (n.internalFluxes x).getD j 0 * (LPM.yA n.internal.length lam (nullRows cutoff ns)).getD j 0) :
+    ∀ j, (LPM.yA n.internal.length lam (nullRows cutoff ns)).getD j 0 = 0 := by
+  have hrl : LPM.rowsLen n.internal.length (nullRows cutoff ns) := by
+    unfold nullRows
+    have : ∀ l : List (List Rat), (∀ r ∈ l, r.length = n.internal.length) →
+        LPM.rowsLen n.internal.length (l.map (fun r => (filterRow cutoff r, (⟨some 0, some 0⟩ : LPM.Bnd)))) := by
+      intro l hl
+      induction l with
+      | nil => simp [LPM.rowsLen]
+      | cons a l ih =>
+        simp only [List.map_cons, LPM.rowsLen]
+        exact ⟨by simp [filterRow, hl a (by simp)], ih (fun r hr => hl r (by simp [hr]))⟩
+    exact this ns hlen
+  apply loopless_feasible_has_no_cycle (n.internalFluxes x) (n.forces x) _
+    (by rw [LPM.length_yA _ _ _ hrl]; simp [Net.forces])
+    (fun j => loopless_forces n ns cutoff x h j) hcompat
+  exact loopless_orthogonal n ns cutoff x h hlen lam
+
+open AuxM in
+/-- the conditions on one internal reaction, spelled out -/
+theorem loopless_problem_rows (n : Net) (ns : List (List Rat)) (cutoff : Rat) (x : V → Rat) :
+    (n.loopless ns cutoff).Feasible x ↔
+      FbaPart n x ∧ (∀ i ∈ n.internal, LooplessRows n n.maxBound (maxR n.maxBound 1000) x i) ∧
+      ∀ p ∈ ns.zipIdx, LPM.dot (filterRow cutoff p.1) (n.forces x) = 0 := loopless_feasible_iff n ns cutoff x
+
 end C17
